@@ -756,7 +756,19 @@ impl Object {
 			item.canonicalize_with(buffer);
 		}
 
-		self.sort()
+		// RFC 8785, section 3.2.3: members are sorted by their keys compared
+		// as sequences of UTF-16 code units (not code points).
+		self.entries.sort_by(|a, b| {
+			a.key
+				.encode_utf16()
+				.cmp(b.key.encode_utf16())
+				.then_with(|| a.value.cmp(&b.value))
+		});
+		self.indexes.clear();
+
+		for i in 0..self.entries.len() {
+			self.indexes.insert(&self.entries, i);
+		}
 	}
 
 	/// Puts this JSON object in canonical form according to
